@@ -50,7 +50,12 @@ func spec(dir string, entry []string, all bool) pipe.Spec {
 		Dir: dir, Entrypoints: entry, All: all,
 		Globals: map[string][]string{"gengo:g1": {"true"}, "gengo:vm": {"true"}, "gengo:defaulter": {"true"}},
 		Gens: []pipe.GenScript{
-			{Name: "g1", Stateful: true, Default: pipe.Action{Render: "var V_$T_$G = 1\n", Imports: clashing, Defers: []pipe.Action{{Render: "var D_$T_$G = 1\n"}}}},
+			{Name: "g1", Stateful: true, Default: pipe.Action{Render: "var V_$T_$G = 1\n", Imports: clashing, Defers: []pipe.Action{{Render: "var D_$T_$G = 1\n"}}},
+				// package c refers only to the SECOND member of each clashing pair: alone it gets the plain names
+				ByType: map[string]pipe.Action{
+					modPath + "/c.C":  {Render: "var V_$T_$G = 1\n", Imports: []string{"x.io/b/util", "foo/fmt", "k8s.io/apis/core/v1"}},
+					modPath + "/c.C2": {Render: "var V_$T_$G = 1\n", Imports: []string{"x.io/b/util", "y.io/util"}},
+				}},
 			{Name: "g2", Default: pipe.Action{Render: "var V_$T_$G = 2\n", Imports: []string{"x.io/b/util", "x.io/a/util"}}},
 			{Name: "vm"},
 		},
@@ -93,7 +98,18 @@ func runOnce(c *core.Ctx, cs Case) (*result, bool) {
 	}
 	seamctl.Set(cs.Def, cs.Policy)
 	defer seamctl.Set(0, nil)
-	o := pipe.Exec(spec(dir, cs.Entry, cs.All))
+	var o pipe.Outcome
+	if cs.Child {
+		// a fresh process (default map order): the references are computed this way, so that every
+		// in-process execution is also compared across a process restart
+		var err error
+		if o, _, _, err = pipe.ExecChild(spec(dir, cs.Entry, cs.All)); err != nil {
+			c.Internal("child: %v", err)
+			return nil, false
+		}
+	} else {
+		o = pipe.Exec(spec(dir, cs.Entry, cs.All))
+	}
 	c.Trans(1)
 	c.Trace(1)
 	if !o.OK() {
@@ -129,7 +145,7 @@ func reference(c *core.Ctx, group string, entry []string, all bool) *result {
 	if r, ok := refs[group]; ok {
 		return r
 	}
-	r, ok := runOnce(c, Case{Entry: entry, All: all})
+	r, ok := runOnce(c, Case{Entry: entry, All: all, Child: true})
 	if !ok {
 		return nil
 	}
@@ -437,7 +453,7 @@ func replay(c *core.Ctx, raw json.RawMessage) {
 func init() {
 	core.Register(&core.Prop{
 		ID: "C04", Level: "model_checking", Run: run, Replay: replay,
-		Rule: "one order-sensitive module (package-level T + type parameter T + function-local T, 15 documented types, a type switched off that keeps a sub-option, aliases, 3 packages importing each other, 3 stale outputs, 8 imports with clashing last segments) with 6 generators (stateful scripted with Defer, second scripted, map-literal/multi-argument template generator, runtimedoc, deepcopy, defaulter). (i) every map-iteration policy vector over all range-over-map sites of the library with <=2 (thorough <=3) deviating sites x 3 non-default policies, plus each policy applied globally; (ii) every entrypoint sequence of length <=3 over 5 spellings (relative dirs, an import path, the module-root package '.', duplicates) x All on/off, compared inside its group of equal package sets; (iii) 3 consecutive runs in-process (each global policy) and with a fresh process per run, and 3-run histories under 4 entrypoint orders (root package first / last / in the middle / by import path) whose outputs incl. gengo.sum are compared after every run; histories that start with a run failing in one of 5 places followed by 3 clean runs vs 3 clean runs alone. Oracle: all generated files and gengo.sum byte-identical to the reference execution, identical callback sequence, later runs change no generated file. Every execution is non-trivial; states = distinct (group, policy) classes",
+		Rule: "one order-sensitive module (package-level T + type parameter T + function-local T, 15 documented types, a type switched off that keeps a sub-option, aliases, 3 packages importing each other, 3 stale outputs, 8 imports with clashing last segments) with 6 generators (stateful scripted with Defer, second scripted, map-literal/multi-argument template generator, runtimedoc, deepcopy, defaulter). (i) every map-iteration policy vector over all range-over-map sites of the library with <=2 (thorough <=3) deviating sites x 3 non-default policies, plus each policy applied globally; (ii) every entrypoint sequence of length <=3 over 5 spellings (relative dirs, an import path, the module-root package '.', duplicates) x All on/off, compared inside its group of equal package sets; (iii) 3 consecutive runs in-process (each global policy) and with a fresh process per run, and 3-run histories under 4 entrypoint orders (root package first / last / in the middle / by import path) whose outputs incl. gengo.sum are compared after every run; histories that start with a run failing in one of 5 places followed by 3 clean runs vs 3 clean runs alone. Oracle: all generated files and gengo.sum byte-identical to the reference execution (which runs in a fresh process), identical callback sequence, later runs change no generated file. Every execution is non-trivial; states = distinct (group, policy) classes",
 		Assumptions: []string{
 			"map orders are bounded to ascending/descending/rotations per site with a bounded number of deviating sites, not all n! orders",
 			"sync.Map.Range in pkgExecute (order in which finished files are written) is not owned: files are independent of one another",
